@@ -32,6 +32,8 @@ def main(argv):
         return 2
 
     def body(chk):
+        if hasattr(mod, "pre"):
+            mod.pre(chk)
         tus = facts.witness_tus()
         if tier == "thorough":
             tus = tus + facts.repo_tus()
